@@ -5,4 +5,8 @@ import "errors"
 var (
 	// ErrInvalidHeaderSize indicates the size in the header is incorrect
 	ErrInvalidHeaderSize = errors.New("headersize is incorrect")
+
+	// ErrInvalidBodySize indicates the body size recorded in a header does
+	// not fit in a non-negative int64.
+	ErrInvalidBodySize = errors.New("bodysize is incorrect")
 )
